@@ -40,6 +40,11 @@ def _expr_tags(e, t, top=True):
     k = e.get("t")
     if k == "bin":
         t.add("xop:" + e["op"]); _expr_tags(e["l"], t, False); _expr_tags(e["r"], t, False)
+        CMP = ("==", "!=", "<", "<=", ">", ">=")
+        def nulltest(c):
+            return c["op"] in ("==", "!=") and any(x.get("t") == "lit" and x["v"]["k"] == "null" for x in (c["l"], c["r"]))
+        if e["op"] in CMP and not nulltest(e) and any(c.get("t") == "bin" and c["op"] in CMP and not nulltest(c) for c in (e["l"], e["r"])):
+            t.add("cmp-in-cmp")
     elif k == "un":
         t.add("xop:un" + e["op"])
         if e["op"] == "-" and (e["e"].get("t") == "un" and e["e"]["op"] == "-" or
